@@ -37,6 +37,7 @@ SCRIPTS = [
     'C = {alpha} * YD + {beta} * H[-1]\nYD = Y - T\nY = C + G\nT = {theta} * Y\nH = H[-1] + YD - C',
     'Y = X[1] + <e>',
     '',
+    '_adj = 0.5 * X\nY = _adj + nan[-1] + NaN',      # an underscore-prefixed model variable; names that look like missing values
 ]
 _CLS = {}
 
@@ -154,7 +155,7 @@ def run_model_case(case):
     if out:
         return out
     # round trip through from_dataframe using the data columns of the class's own variables
-    data = df1[[c for c in model_class(i).NAMES]]
+    data = m.to_dataframe(status=False, iterations=False, include_internal=True)[[c for c in model_class(i).NAMES]]   # (all data columns, underscore-prefixed model variables included)
     try:
         m2 = model_class(i).from_dataframe(data)
     except Exception as e:
